@@ -49,7 +49,7 @@ Definition translated_write_plain := true.
 
 (* Entry.printOut  (ends in PoReturn or, with the nested diagnostic pending, in PoWarn) *)
    (* no tracked effect (declared): collectWrittenBytes(n) *)
-Definition print_out (asm_LevelSettable asm_logwr : member -> option wid) (fld_Writer : wid -> wid) (as_LevelSettable_of_io_Writer : wid -> option wid) (as_LWs_of_LogWriter : logwriter -> option (list member)) (as_LevelSettable_of_LogWriter : logwriter -> option wid) (f_findWriter : Z -> logwriter) (wres : nat -> Z * bool) (lvl : Z) (msg : bytes) (tr_ : list wevent) (k_ : nat) : po_result :=
+Definition print_out (asm_LevelSettable asm_logwr : member -> option wid) (fld_Writer : wid -> wid) (as_LevelSettable_of_io_Writer : wid -> option wid) (as_LWs_of_LogWriter : logwriter -> option (list member)) (as_LevelSettable_of_LogWriter : logwriter -> option wid) (f_writerGet : Z -> list member) (f_findWriter : Z -> logwriter) (wres : nat -> Z * bool) (lvl : Z) (msg : bytes) (tr_ : list wevent) (k_ : nat) : po_result :=
   let w := (f_findWriter lvl) in
   if (negb (lw_is_nil w))
   then let n := 0 in
